@@ -157,6 +157,54 @@ class Fn:
         self.hir = d.get("hir")
         self.root = d.get("root")
         self.closures = []
+        self._resolve_fn_locals()
+
+    def _resolve_fn_locals(self):
+        """calls through a local that holds a fn item (`let f = <u8 as BinRead>::read_options; f(r, e, a)` — the shape
+        binrw's derives generate) are rewritten to direct calls; the original operand is kept under "fi" """
+        blocks = self.mir.get("blocks") if self.mir else None
+        if not blocks:
+            return
+        ind = [b["t"] for b in blocks if b["t"].get("k") == "call" and b["t"]["f"][0] in ("c", "m")]
+        if not ind:
+            return
+        defs = {}
+        for b in blocks:
+            for st in b["s"]:
+                if st[0] == "=":
+                    pl = st[1]
+                    l = pl if isinstance(pl, int) else (pl[0] if not pl[1] else None)
+                    if l is not None:
+                        defs.setdefault(l, []).append(st[2])
+            t = b["t"]
+            if t.get("k") == "call":
+                d = t["d"]
+                l = d if isinstance(d, int) else d[0]
+                defs.setdefault(l, []).append(None)
+
+        def res(l, depth=0):
+            ds = defs.get(l)
+            if not ds or len(ds) != 1 or ds[0] is None or depth > 6:
+                return None
+            rv = ds[0]
+            if rv[0] != "use":
+                return None
+            o = rv[1]
+            if o[0] == "k" and isinstance(o[1], dict) and o[1].get("fn"):
+                return o
+            if o[0] in ("c", "m"):
+                pl = o[1]
+                if isinstance(pl, int) or not pl[1]:
+                    return res(pl if isinstance(pl, int) else pl[0], depth + 1)
+            return None
+        for t in ind:
+            pl = t["f"][1]
+            if not isinstance(pl, int) and pl[1]:
+                continue
+            k = res(pl if isinstance(pl, int) else pl[0])
+            if k is not None:
+                t["fi"] = t["f"]
+                t["f"] = k
 
     def get(self, k, default=None):
         return self.d.get(k, default)
